@@ -227,7 +227,7 @@ Print Assumptions C10_scc_partial_resets_refuted.
 
 Example C10_example_refused_then_valid :
   reader_history code_reset new_reader [doc_a_cut; doc_b]
-  = [RErr (ECrash 3); SccDecoder.read (fst doc_b) (snd doc_b)] /\
+  = [RErr ETiming; SccDecoder.read (fst doc_b) (snd doc_b)] /\
   (exists caps, SccDecoder.read (fst doc_b) (snd doc_b) = ROk caps /\ length caps = 1%nat).
 Proof. exact refused_then_valid. Qed.
 
